@@ -81,8 +81,13 @@ class VectorContainer:
     @staticmethod
     def _locate_period_in_span_fallback(period: Hashable, span: np.ndarray) -> int:
         """Fallback (static) location method, should other `span`-indexing methods fail."""
+        # Hold `period` in a 0-d array of type `object`, to compare it as a single
+        # value (NumPy would otherwise broadcast a tuple against `span`)
+        target = np.empty((), dtype=object)
+        target[()] = period
+
         # Convert `span` to a NumPy array of type `object` and locate matches
-        locations = np.asarray(np.asarray(span, dtype=object) == period).nonzero()
+        locations = np.asarray(np.asarray(span, dtype=object) == target).nonzero()
 
         # For now(?), only support one-dimensional array-likes
         assert len(locations) == 1
